@@ -624,4 +624,7 @@ def run(ck, tier):
         ck.finding('R5', f.construct, f.detail, f.loc, f.message)
     ck.assume("numerical correctness of computeCRC/computeLRC beyond their constants is not decided; hence RTU 'low byte first' relies on computeCRC returning the byte-swapped value")
     ck.assume('payload-content sweeps and delivery by a fresh receiver are not decided (C06/C07 decide the structural part)')
+    from ..share import import_findings as _imp
+    ck.rule('R9', 'a packet handed to a fresh receiver delivers a message of the original type: the sub-function dispatch of both decoders reaches every registered code, sub-function 0 included (shared with C01 R4)')
+    _imp(ck, 'C01', 'R9', ('R4',), 'the receiver of any framing delivers the bare base-class message instead of the message that was packed')
     return cx.idx
